@@ -160,6 +160,9 @@ async fn start_streaming<
     };
 
     if let Some(msg) = extra_message {
+        // The reply must not be sent before the journal is flushed; the listener is already
+        // registered, so no event that happens while we wait is lost
+        senders.events.flush_journal().await;
         let _ = tx.send(msg).await;
     }
 
@@ -208,9 +211,6 @@ pub async fn client_rpc_loop<
                 let response = match message {
                     FromClientMessage::Submit(msg, stream_opts) => {
                         let response = submit::handle_submit(&state_ref, senders, msg);
-                        if !response.is_error() {
-                            senders.events.flush_journal().await;
-                        };
                         if let Some(mut stream_opts) = stream_opts
                             && let ToClientMessage::SubmitResponse(SubmitResponse::Ok {
                                 job, ..
@@ -232,6 +232,9 @@ pub async fn client_rpc_loop<
                             .await;
                             break;
                         }
+                        if !response.is_error() {
+                            senders.events.flush_journal().await;
+                        };
                         response
                     }
                     FromClientMessage::JobInfo(msg, stream_opts) => {
